@@ -126,9 +126,31 @@ def run_case(case, res):
         cfg["variant"] = variant
         eg = E.ExtrapolationGrid(slice_grouping=grouping, slice_version=sv, container_version=cv, force_balanced_refinement_tree=force)
         sigx = ":general_interval" if gen == "general_interval" else ""
+        coeffs = [rng.uniform(-1, 1) for _ in range(4)]
+        # history on the SAME object: other trees (mirror image = same size, or unrelated) are set and used first
+        for _ in range(rng.choice([0, 0, 1, 2])):
+            if rng.random() < 0.6:
+                hx, hl = [a + b - x for x in reversed(xs)], list(reversed(lv))
+            else:
+                hx, hl = trees.gen_tree(rng, a, b, style=rng.choice(["uniform", "left", "right", "graded"]))
+                hx, hl = [float(x) for x in hx], [int(x) for x in hl]
+            try:
+                with quiet:
+                    eg.set_grid(list(hx), list(hl))
+                    if rng.random() < 0.7:
+                        eg.integrate(Polynomial1d(coeffs))
+                    else:
+                        eg.get_weights()
+                res.count("history_steps")
+            except AssertionError:
+                pass
+        val_first = None
         try:
             with quiet:
                 eg.set_grid(list(xs), list(lv))
+                if rng.random() < 0.5:
+                    val_first = eg.integrate(Polynomial1d(coeffs))
+                    res.count("integrate_before_get_weights")
                 w = eg.get_weights()
         except AssertionError as ex:
             if gen == "general_interval":
@@ -152,9 +174,8 @@ def run_case(case, res):
             if len(gx) == 2 ** d2 + 1 and d2 >= 1 and sv == E.SliceVersion.ROMBERG_DEFAULT and cv == E.SliceContainerVersion.ROMBERG_DEFAULT:
                 legendre_exact(res, w, gx, a, b, 2 * d2 + 1, "complete_grid_order", "C11_complete_grid_order:" + grouping.name + sigx, cfg)
             # integrate() == sum w f
-            coeffs = [rng.uniform(-1, 1) for _ in range(4)]
             with quiet:
-                val = eg.integrate(Polynomial1d(coeffs))
+                val = eg.integrate(Polynomial1d(coeffs)) if val_first is None else val_first
             ref = float(np.sum(np.asarray(w, dtype=float) * np.polyval(coeffs[::-1], np.asarray(gx))))
             res.close("integrate_equals_weighted_sum", float(np.atleast_1d(val)[0]), ref, 1e-12 * max(1.0, abs(ref)) * 8,
                       "C11_integrate_differs_from_weights", "integrate(f) differs from sum w_i f(x_i)", cfg)
@@ -162,6 +183,12 @@ def run_case(case, res):
         xs, lv = balanced_tree(rng, a, b, rng.randint(0, 14))
         cfg.update({"n": len(xs), "levels": lv})
         bg = E.BalancedExtrapolationGrid()
+        for _ in range(rng.choice([0, 0, 1])):
+            hx, hl = balanced_tree(rng, a, b, rng.randint(0, 14))
+            with quiet:
+                bg.set_grid(list(hx), list(hl))
+                bg.get_weights()
+            res.count("history_steps")
         with quiet:
             bg.set_grid(list(xs), list(lv))
             w = bg.get_weights()
